@@ -1,10 +1,53 @@
-//! Seeded generator of random well-typed programs in the exchange format of spec/Machine.tla.
+//! Seeded generator of random well-typed programs in the exchange format of spec/Machine.tla
+//! (stages 1-3: all integer widths, bool, casts, control flow, calls in statements and expressions,
+//! value / word / view / struct-view / slice-pointer / pointer / pointer-to-pointer / pointer-to-array
+//! parameters, arrays incl. multi-dimensional, structs, words, pointer members, arrays of pointers,
+//! constants of scalar / array / struct / word type, `|x|`, `|:T|`).
 //! It needs no oracle of its own: whether a program is free of undefined behaviour and what it
-//! prints is decided by the specification (Trace_Machine.tla).
+//! prints is decided by the specification (Trace_Machine.tla).  What the generator must guarantee is
+//! that the program is *well-formed Penne* (well-typed, mutability respected, documented constructs
+//! only); a program it produces and the compiler rejects is reported by the check.
+//!
+//! Kept out on purpose (see docs/notes-machine.md): any use of a `&[]T` parameter without `&`
+//! (open finding: panic), `&v` of a view (open finding: panic), element access through a `&[N]T`
+//! parameter (finding: invalid IR), views of arrays of pointers (invalid IR, seen by the types group),
+//! more than one call among sibling operands of one statement and calls with `&` arguments next to
+//! other reads (evaluation order is not documented), char8 arithmetic, printing of pointers.
 use pvh::rng::Rng;
 use serde_json::{Value, json};
 
 const INT_TYPES: [&str; 11] = ["i8", "i16", "i32", "i64", "i128", "u8", "u16", "u32", "u64", "u128", "usize"];
+const WORD_MEMBER_TYPES: [&str; 9] = ["i8", "i16", "i32", "i64", "u8", "u16", "u32", "u64", "bool"];
+
+#[derive(Clone, PartialEq, Debug)]
+enum Ty {
+    Prim(&'static str),
+    Ptr(Box<Ty>),
+    Arr(usize, Box<Ty>),
+    /// the parameter type `[]T`
+    View(Box<Ty>),
+    Named(String),
+}
+
+fn ptr(t: Ty) -> Ty {
+    Ty::Ptr(Box::new(t))
+}
+fn arr(n: usize, t: Ty) -> Ty {
+    Ty::Arr(n, Box::new(t))
+}
+fn view(t: Ty) -> Ty {
+    Ty::View(Box::new(t))
+}
+
+fn ty_json(t: &Ty) -> Value {
+    match t {
+        Ty::Prim(p) => json!({"k": "prim", "t": p}),
+        Ty::Ptr(e) => json!({"k": "ptr", "e": ty_json(e)}),
+        Ty::Arr(n, e) => json!({"k": "array", "n": n, "e": ty_json(e)}),
+        Ty::View(e) => json!({"k": "view", "e": ty_json(e)}),
+        Ty::Named(n) => json!({"k": "named", "n": n}),
+    }
+}
 
 fn width(t: &str) -> u32 {
     match t {
@@ -24,18 +67,108 @@ fn limbs(x: u128, w: u32) -> Vec<u64> {
 fn lit(t: &str, x: u128) -> Value {
     json!({"k": "lit", "t": t, "v": limbs(x, width(t))})
 }
+fn usize_lit(x: usize) -> Value {
+    lit("usize", x as u128)
+}
 fn var(x: &str) -> Value {
     json!({"k": "var", "x": x})
 }
 
+#[derive(Clone, Debug)]
+struct StructDecl {
+    name: String,
+    /// Some(bits) for a word
+    bits: Option<u32>,
+    ms: Vec<(String, Ty)>,
+    has_ptr: bool,
+}
+
+#[derive(Clone, Copy, PartialEq, Debug)]
+enum Kind {
+    Var,
+    Param,
+    Const,
+}
+
+#[derive(Clone, Debug)]
+struct Variable {
+    name: String,
+    ty: Ty,
+    kind: Kind,
+    /// for `[]T` / `&[]T` parameters: the number of elements every caller guarantees
+    minlen: usize,
+    /// nesting depth of the declaring scope (parameters 0; what pointer parameters point to is older)
+    depth: usize,
+    /// hidden from the random statement generator (loop counters, ...)
+    hidden: bool,
+}
+
+/// a reference expression `x steps` together with the static facts the generator needs
+#[derive(Clone, Debug)]
+struct PlaceRef {
+    x: String,
+    steps: Vec<Value>,
+    /// the declared type of the place (pointers included)
+    ty: Ty,
+    /// may be assigned to / have its address taken
+    writable: bool,
+    /// length guarantee if the base type is a view
+    minlen: usize,
+    /// depth of the root variable, 0 if the place is reached through a pointer parameter
+    depth: usize,
+    /// passes through a pointer (the storage is someone else's)
+    through_ptr: bool,
+    /// the root variable is a parameter
+    root_param: bool,
+}
+
+impl PlaceRef {
+    /// element access through a `&[N]T` parameter gives invalid IR (finding): such parameters are only
+    /// measured (`|x|`) and passed on
+    fn no_index(&self) -> bool {
+        self.root_param && self.steps.is_empty() && matches!(&self.ty, Ty::Ptr(e) if matches!(**e, Ty::Arr(..)))
+    }
+    /// (base type after all dereferences, number of pointer levels)
+    fn base(&self) -> (&Ty, usize) {
+        let mut t = &self.ty;
+        let mut k = 0;
+        while let Ty::Ptr(e) = t {
+            t = e;
+            k += 1;
+        }
+        (t, k)
+    }
+    fn reference(&self, addr: usize) -> Value {
+        json!({"k": "ref", "x": self.x, "addr": addr, "steps": self.steps})
+    }
+    fn plain(&self) -> Value {
+        json!({"x": self.x, "addr": 0, "steps": self.steps})
+    }
+}
+
+#[derive(Clone, Debug)]
+struct FnSig {
+    name: String,
+    params: Vec<(String, Ty, usize)>,
+    ret: Option<Ty>,
+}
+
 struct Gen {
     rng: Rng,
-    /// visible variables: (name, type, is_array_len)
-    scopes: Vec<Vec<(String, String, usize)>>,
+    structs: Vec<StructDecl>,
+    scopes: Vec<Vec<Variable>>,
+    consts: Vec<Variable>,
     counter: usize,
-    fns: Vec<(String, Vec<String>, String)>,
-    consts: Vec<(String, String)>,
+    fns: Vec<FnSig>,
     budget: usize,
+    /// calls still allowed in the statement being generated
+    calls_left: usize,
+    /// the return type of the function being generated has a `return` label to jump to
+    has_return_label: bool,
+    /// generating the initialiser of a constant: literals, other constants, arithmetic, casts, size-of only
+    in_const: bool,
+    /// generating the condition of an `if`: a structure literal there does not parse (its brace opens the block)
+    in_cond: bool,
 }
 
 impl Gen {
@@ -46,15 +179,212 @@ impl Gen {
     fn int_type(&mut self) -> &'static str {
         INT_TYPES[self.rng.below(INT_TYPES.len())]
     }
-    fn vars_of(&self, t: &str) -> Vec<String> {
-        let mut v: Vec<String> = self.scopes.iter().flatten().filter(|x| x.1 == t && x.2 == 0).map(|x| x.0.clone()).collect();
-        v.extend(self.consts.iter().filter(|c| c.1 == t).map(|c| c.0.clone()));
+    fn scalar_type(&mut self) -> &'static str {
+        if self.rng.chance(8) { "bool" } else { self.int_type() }
+    }
+    fn decl(&self, n: &str) -> &StructDecl {
+        self.structs.iter().find(|d| d.name == n).expect("declared structure")
+    }
+    fn is_word(&self, t: &Ty) -> bool {
+        matches!(t, Ty::Named(n) if self.decl(n).bits.is_some())
+    }
+    fn is_struct(&self, t: &Ty) -> bool {
+        matches!(t, Ty::Named(n) if self.decl(n).bits.is_none())
+    }
+    /// a type whose values can be copied: primitives and words
+    fn is_copyable(&self, t: &Ty) -> bool {
+        matches!(t, Ty::Prim(_)) || self.is_word(t)
+    }
+    fn depth(&self) -> usize {
+        self.scopes.len()
+    }
+    fn declare(&mut self, name: &str, ty: Ty, hidden: bool) {
+        let depth = self.depth();
+        self.scopes.last_mut().unwrap().push(Variable { name: name.to_string(), ty, kind: Kind::Var, minlen: 0, depth, hidden });
+    }
+    fn visible(&self) -> Vec<Variable> {
+        if self.in_const {
+            // constant expressions refer to other constants by name only (scalars and words)
+            return self.consts.iter().filter(|c| self.is_copyable(&c.ty)).cloned().collect();
+        }
+        let mut v: Vec<Variable> = self.scopes.iter().flatten().filter(|x| !x.hidden).cloned().collect();
+        v.extend(self.consts.iter().cloned());
         v
     }
-    fn arrays_of(&self, t: &str) -> Vec<(String, usize)> {
-        self.scopes.iter().flatten().filter(|x| x.1 == t && x.2 > 0).map(|x| (x.0.clone(), x.2)).collect()
+
+    // ---- layout of words (both admissible alignments of word members must give the declared size) ----
+    fn size_align(&self, t: &Ty, declared: bool) -> (usize, usize) {
+        match t {
+            Ty::Prim(p) => {
+                let s = (width(p) / 8) as usize;
+                (s, s.min(8))
+            }
+            Ty::Ptr(_) => (8, 8),
+            Ty::Arr(n, e) => {
+                let (s, a) = self.size_align(e, declared);
+                (n * s, a)
+            }
+            Ty::View(_) => (16, 8),
+            Ty::Named(n) => {
+                let d = self.decl(n).clone();
+                let (s, a) = self.members_size_align(&d.ms, declared);
+                match d.bits {
+                    Some(b) => ((b / 8) as usize, if declared { ((b / 8) as usize).min(8) } else { a }),
+                    None => (s, a),
+                }
+            }
+        }
     }
+    fn members_size_align(&self, ms: &[(String, Ty)], declared: bool) -> (usize, usize) {
+        let mut off = 0usize;
+        let mut al = 1usize;
+        for (_, t) in ms {
+            let (s, a) = self.size_align(t, declared);
+            off = (off + a - 1) / a * a + s;
+            al = al.max(a);
+        }
+        ((off + al - 1) / al * al, al)
+    }
+    /// `|:T|` is only generated where the documentation fixes its value
+    fn size_is_constrained(&self, t: &Ty) -> bool {
+        self.size_align(t, true) == self.size_align(t, false)
+    }
+
+    // ---- declarations of structures and words ----
+    fn gen_structs(&mut self) {
+        let n = self.rng.below(4);
+        for _ in 0..n {
+            if self.rng.chance(45) {
+                // a word: members are fixed size integers, bool or other words; the members must fill the declared size
+                for _attempt in 0..20 {
+                    let k = 1 + self.rng.below(4);
+                    let mut ms = Vec::new();
+                    for _ in 0..k {
+                        let words: Vec<String> = self.structs.iter().filter(|d| d.bits.is_some()).map(|d| d.name.clone()).collect();
+                        let t = if !words.is_empty() && self.rng.chance(25) {
+                            Ty::Named(words[self.rng.below(words.len())].clone())
+                        } else {
+                            Ty::Prim(WORD_MEMBER_TYPES[self.rng.below(WORD_MEMBER_TYPES.len())])
+                        };
+                        let name = self.fresh("m");
+                        ms.push((name, t));
+                    }
+                    let a = self.members_size_align(&ms, true);
+                    let b = self.members_size_align(&ms, false);
+                    // no padding anywhere: the sum of the member sizes is the size
+                    let sum: usize = ms.iter().map(|(_, t)| self.size_align(t, true).0).sum();
+                    if a.0 == b.0 && a.0 == sum && [1usize, 2, 4, 8, 16].contains(&sum) {
+                        let name = self.fresh("W");
+                        self.structs.push(StructDecl { name, bits: Some(8 * sum as u32), ms, has_ptr: false });
+                        break;
+                    }
+                }
+            } else {
+                let k = 1 + self.rng.below(4);
+                let mut ms = Vec::new();
+                let mut has_ptr = false;
+                for _ in 0..k {
+                    let t = match self.rng.below(10) {
+                        0 | 1 | 2 | 3 => Ty::Prim(self.scalar_type()),
+                        4 | 5 => arr(1 + self.rng.below(3), Ty::Prim(self.int_type())),
+                        6 => arr(1 + self.rng.below(2), arr(1 + self.rng.below(3), Ty::Prim(self.int_type()))),
+                        7 => {
+                            has_ptr = true;
+                            ptr(Ty::Prim(self.int_type()))
+                        }
+                        _ => {
+                            // another structure or word declared earlier (no pointers inside, to keep views simple)
+                            let cands: Vec<String> = self.structs.iter().filter(|d| !d.has_ptr).map(|d| d.name.clone()).collect();
+                            if cands.is_empty() { Ty::Prim(self.int_type()) } else { Ty::Named(cands[self.rng.below(cands.len())].clone()) }
+                        }
+                    };
+                    let name = self.fresh("m");
+                    ms.push((name, t));
+                }
+                let name = self.fresh("S");
+                self.structs.push(StructDecl { name, bits: None, ms, has_ptr });
+            }
+        }
+    }
+
+    // ---- places ----
+    fn places(&mut self) -> Vec<PlaceRef> {
+        let mut out = Vec::new();
+        for v in self.visible() {
+            let root = PlaceRef {
+                x: v.name.clone(),
+                steps: Vec::new(),
+                ty: v.ty.clone(),
+                writable: v.kind == Kind::Var,
+                minlen: v.minlen,
+                depth: if v.kind == Kind::Var { v.depth } else { 0 },
+                through_ptr: false,
+                root_param: v.kind == Kind::Param,
+            };
+            self.walk(root, 0, &mut out);
+        }
+        out
+    }
+    fn index_expr(&mut self, n: usize) -> Value {
+        let vars: Vec<String> = self.visible().into_iter().filter(|v| v.ty == Ty::Prim("usize")).map(|v| v.name).collect();
+        if self.rng.chance(85) || n == 0 || vars.is_empty() {
+            usize_lit(self.rng.below(n.max(1)))
+        } else {
+            // a computed index that stays in bounds
+            let e = var(&vars[self.rng.below(vars.len())]);
+            json!({"k": "bin", "op": "%", "l": e, "r": usize_lit(n)})
+        }
+    }
+    fn walk(&mut self, p: PlaceRef, depth: usize, out: &mut Vec<PlaceRef>) {
+        out.push(p.clone());
+        if depth >= 4 || self.in_const {
+            return;
+        }
+        let (base, k) = {
+            let (b, k) = p.base();
+            (b.clone(), k)
+        };
+        let writable = p.writable || k > 0;
+        let through_ptr = p.through_ptr || k > 0;
+        let d = if k > 0 { 0 } else { p.depth };
+        match base {
+            Ty::Arr(n, e) => {
+                if n > 0 && !p.no_index() {
+                    let i = self.index_expr(n);
+                    let mut steps = p.steps.clone();
+                    steps.push(json!({"k": "i", "e": i}));
+                    self.walk(PlaceRef { x: p.x.clone(), steps, ty: (*e).clone(), writable, minlen: 0, depth: d, through_ptr, root_param: p.root_param }, depth + 1, out);
+                }
+            }
+            Ty::View(e) => {
+                if p.minlen > 0 {
+                    let i = self.index_expr(p.minlen);
+                    let mut steps = p.steps.clone();
+                    steps.push(json!({"k": "i", "e": i}));
+                    // a view is read-only unless it is the target of a slice pointer
+                    self.walk(PlaceRef { x: p.x.clone(), steps, ty: (*e).clone(), writable: k > 0, minlen: 0, depth: d, through_ptr: true, root_param: p.root_param }, depth + 1, out);
+                }
+            }
+            Ty::Named(n) => {
+                let ms = self.decl(&n).ms.clone();
+                for (m, t) in ms {
+                    let mut steps = p.steps.clone();
+                    steps.push(json!({"k": "m", "m": m}));
+                    self.walk(PlaceRef { x: p.x.clone(), steps, ty: t, writable, minlen: 0, depth: d, through_ptr, root_param: p.root_param }, depth + 1, out);
+                }
+            }
+            _ => {}
+        }
+    }
+    /// places that read as a value of the copyable type t (autoderef to the base type)
+    fn reads_of(&mut self, t: &Ty) -> Vec<PlaceRef> {
+        self.places().into_iter().filter(|p| p.base().0 == t).collect()
+    }
+
     fn interesting(&mut self, t: &str) -> u128 {
+        if t == "bool" {
+            return self.rng.below(2) as u128;
+        }
         let w = width(t);
         let mask: u128 = if w == 128 { u128::MAX } else { (1u128 << w) - 1 };
         let x: u128 = match self.rng.below(10) {
@@ -69,20 +399,187 @@ impl Gen {
         };
         x & mask
     }
-    fn expr(&mut self, t: &str, depth: usize) -> Value {
-        let vars = self.vars_of(t);
-        let choice = if depth == 0 { self.rng.below(2) } else { self.rng.below(10) };
+
+    // ---- expressions ----
+    /// a call to a function returning `ret`; `effects`: arguments with `&` are allowed
+    fn call_expr(&mut self, ret: &Ty, effects: bool) -> Option<Value> {
+        if self.calls_left == 0 {
+            return None;
+        }
+        let cands: Vec<FnSig> = self.fns.iter().filter(|f| f.ret.as_ref() == Some(ret)).cloned().collect();
+        if cands.is_empty() {
+            return None;
+        }
+        let f = cands[self.rng.below(cands.len())].clone();
+        // a call among the arguments of a call is evaluated before the callee runs: no ambiguity
+        self.calls_left = if self.rng.chance(20) { 1 } else { 0 };
+        let args = self.args_for(&f, effects);
+        self.calls_left = 0;
+        Some(json!({"k": "call", "f": f.name, "args": args?}))
+    }
+    fn args_for(&mut self, f: &FnSig, effects: bool) -> Option<Vec<Value>> {
+        let mut args = Vec::new();
+        for (_, t, minlen) in &f.params {
+            args.push(self.arg_for(t, *minlen, effects)?);
+        }
+        Some(args)
+    }
+    fn arg_for(&mut self, t: &Ty, minlen: usize, effects: bool) -> Option<Value> {
+        match t {
+            Ty::Prim(p) => Some(self.expr(*p, 2)),
+            Ty::Named(_) if self.is_word(t) => {
+                let e = self.word_expr(t, 2);
+                if e["k"] == "nothing" { None } else { Some(e) }
+            }
+            Ty::Named(n) => {
+                // a view of a structure: a place, a constant or a literal
+                let cands: Vec<PlaceRef> = self.places().into_iter().filter(|p| p.base().0 == t).collect();
+                if !cands.is_empty() && self.rng.chance(80) {
+                    Some(cands[self.rng.below(cands.len())].reference(0))
+                } else if !self.decl(n).has_ptr && !self.in_cond {
+                    Some(self.struct_literal(n, 1))
+                } else {
+                    None
+                }
+            }
+            Ty::View(e) => {
+                let cands: Vec<PlaceRef> = self
+                    .places()
+                    .into_iter()
+                    .filter(|p| match p.base() {
+                        (Ty::Arr(n, e2), _) => e2 == e && *n >= minlen,
+                        // a view parameter may be passed on; a slice pointer may not be used without `&` (open finding)
+                        (Ty::View(e2), 0) => e2 == e && p.minlen >= minlen,
+                        _ => false,
+                    })
+                    .collect();
+                if !cands.is_empty() && self.rng.chance(85) {
+                    Some(cands[self.rng.below(cands.len())].reference(0))
+                } else {
+                    let n = minlen + self.rng.below(2);
+                    Some(self.array_literal(&arr(n.max(1), (**e).clone()), 1))
+                }
+            }
+            Ty::Ptr(inner) => {
+                if !effects {
+                    return None;
+                }
+                let cands = self.address_candidates(t, minlen);
+                if cands.is_empty() {
+                    return None;
+                }
+                let _ = inner;
+                Some(cands[self.rng.below(cands.len())].clone())
+            }
+            Ty::Arr(..) => None,
+        }
+    }
+    /// expressions of the pointer type t = &^j B: `&^j place`
+    fn address_candidates(&mut self, t: &Ty, minlen: usize) -> Vec<Value> {
+        let mut j = 0;
+        let mut b = t;
+        while let Ty::Ptr(e) = b {
+            b = e;
+            j += 1;
+        }
+        let mut out = Vec::new();
+        for p in self.places() {
+            let (pb, k) = p.base();
+            let base_ok = match (pb, b) {
+                // `&array` for a slice pointer; a pointer to an array is not accepted for `&[]T` (undocumented either way)
+                (Ty::Arr(n, e), Ty::View(e2)) => k == 0 && e == e2 && *n >= minlen,
+                (Ty::View(e), Ty::View(e2)) => k >= 1 && e == e2 && p.minlen >= minlen,
+                (x, y) => x == y,
+            };
+            if !base_ok {
+                continue;
+            }
+            if j <= k {
+                out.push(p.reference(j));
+            } else if j == k + 1 && p.writable && !matches!(pb, Ty::View(_)) {
+                out.push(p.reference(j));
+            }
+        }
+        out
+    }
+    fn array_literal(&mut self, t: &Ty, depth: usize) -> Value {
+        if let Ty::Arr(n, e) = t {
+            let es: Vec<Value> = (0..*n).map(|_| self.value_of(e, depth)).collect();
+            json!({"k": "arr", "es": es})
+        } else {
+            unreachable!()
+        }
+    }
+    fn struct_literal(&mut self, n: &str, depth: usize) -> Value {
+        let ms = self.decl(n).ms.clone();
+        let fs: Vec<Value> = ms.iter().map(|(m, t)| json!({"m": m, "e": self.value_of(t, depth)})).collect();
+        json!({"k": "st", "n": n, "fs": fs})
+    }
+    /// an initialiser for any storable type
+    fn value_of(&mut self, t: &Ty, depth: usize) -> Value {
+        match t {
+            Ty::Prim(p) => self.expr(*p, depth),
+            Ty::Arr(..) => self.array_literal(t, depth),
+            Ty::Named(n) => {
+                if self.is_word(t) {
+                    self.word_expr(t, depth)
+                } else {
+                    let n = n.clone();
+                    self.struct_literal(&n, depth)
+                }
+            }
+            Ty::Ptr(_) => {
+                let c = self.address_candidates(t, 0);
+                if c.is_empty() {
+                    // cannot happen where pointer members are used: callers check first
+                    panic!("no address candidate")
+                }
+                c[self.rng.below(c.len())].clone()
+            }
+            Ty::View(_) => unreachable!(),
+        }
+    }
+    fn word_expr(&mut self, t: &Ty, depth: usize) -> Value {
+        let name = if let Ty::Named(n) = t { n.clone() } else { unreachable!() };
+        let reads = self.reads_of(t);
+        if self.in_cond {
+            // no structure literal inside a condition
+            if !reads.is_empty() {
+                return reads[self.rng.below(reads.len())].reference(0);
+            }
+            return json!({"k": "nothing"});
+        }
+        match self.rng.below(10) {
+            0..=4 if !reads.is_empty() => reads[self.rng.below(reads.len())].reference(0),
+            5 | 6 if depth > 0 => match self.call_expr(t, false) {
+                Some(c) => c,
+                None => self.struct_literal(&name, depth.saturating_sub(1)),
+            },
+            _ => self.struct_literal(&name, depth.saturating_sub(1)),
+        }
+    }
+    fn expr(&mut self, t: &'static str, depth: usize) -> Value {
+        if t == "bool" {
+            let reads = self.reads_of(&Ty::Prim("bool"));
+            if !reads.is_empty() && self.rng.chance(50) {
+                return reads[self.rng.below(reads.len())].reference(0);
+            }
+            return lit("bool", self.rng.below(2) as u128);
+        }
+        let choice = if depth == 0 { self.rng.below(3) } else { self.rng.below(13) };
         match choice {
             0 => {
                 let x = self.interesting(t);
                 lit(t, x)
             }
-            1 | 2 => {
-                if vars.is_empty() {
+            1 | 2 | 10 => {
+                let reads = self.reads_of(&Ty::Prim(t));
+                if reads.is_empty() {
                     let x = self.interesting(t);
                     lit(t, x)
                 } else {
-                    var(&vars[self.rng.below(vars.len())])
+                    let p = &reads[self.rng.below(reads.len())];
+                    if p.steps.is_empty() && self.rng.chance(50) { var(&p.x) } else { p.reference(0) }
                 }
             }
             3 | 4 | 5 => {
@@ -91,7 +588,7 @@ impl Gen {
                 let l = self.expr(t, depth - 1);
                 let r = match op {
                     "/" | "%" => {
-                        if self.rng.chance(85) {
+                        if self.in_const || self.rng.chance(85) {
                             // a literal divisor that is neither 0 nor -1
                             let w = width(t);
                             let x = 2 + self.rng.below(11) as u128;
@@ -106,7 +603,7 @@ impl Gen {
                         }
                     }
                     "<<" | ">>" => {
-                        if self.rng.chance(90) {
+                        if self.in_const || self.rng.chance(90) {
                             lit(t, self.rng.below(width(t) as usize) as u128)
                         } else {
                             self.expr(t, depth - 1)
@@ -127,54 +624,317 @@ impl Gen {
                 }
             }
             7 | 8 => {
-                // cast from another type
-                let mut t2 = self.int_type();
+                // cast from another type (bool extends with zeros)
+                let mut t2 = if self.rng.chance(6) { "bool" } else { self.int_type() };
                 if t2 == t {
                     t2 = if t == "u8" { "i64" } else { "u8" };
                 }
                 let e = self.expr(t2, depth - 1);
                 json!({"k": "as", "t": t, "e": e})
             }
-            _ => {
-                // element of an array, the length of an array, or a parenthesised expression
-                let arrs = self.arrays_of(t);
-                if !arrs.is_empty() && self.rng.chance(70) {
-                    let (a, n) = arrs[self.rng.below(arrs.len())].clone();
-                    let i = if self.rng.chance(90) { lit("usize", self.rng.below(n) as u128) } else { self.expr("usize", 1) };
-                    json!({"k": "idx", "x": a, "i": i})
-                } else if t == "usize" && self.rng.chance(50) {
-                    let all: Vec<String> = self.scopes.iter().flatten().filter(|x| x.2 > 0).map(|x| x.0.clone()).collect();
-                    if all.is_empty() { lit(t, 3) } else { json!({"k": "len", "x": all[self.rng.below(all.len())]}) }
-                } else {
-                    let e = self.expr(t, depth - 1);
-                    json!({"k": "paren", "e": e})
+            9 => {
+                if t == "usize" && self.rng.chance(70) {
+                    // the length of an array however it is reachable, or the size of a type
+                    let arrs: Vec<PlaceRef> = self.places().into_iter().filter(|p| matches!(p.base().0, Ty::Arr(..) | Ty::View(_))).collect();
+                    if !arrs.is_empty() && !self.in_const && self.rng.chance(75) {
+                        let p = &arrs[self.rng.below(arrs.len())];
+                        return json!({"k": "len", "r": p.plain()});
+                    }
+                    let t = self.sized_type();
+                    if self.size_is_constrained(&t) {
+                        return json!({"k": "sizeof", "ty": ty_json(&t)});
+                    }
                 }
+                let e = self.expr(t, depth - 1);
+                json!({"k": "paren", "e": e})
             }
+            _ => match self.call_expr(&Ty::Prim(t), false) {
+                Some(c) => c,
+                None => {
+                    let x = self.interesting(t);
+                    lit(t, x)
+                }
+            },
+        }
+    }
+    fn sized_type(&mut self) -> Ty {
+        match self.rng.below(4) {
+            0 => Ty::Prim(self.scalar_type()),
+            1 => arr(1 + self.rng.below(4), Ty::Prim(self.int_type())),
+            2 if !self.structs.is_empty() => Ty::Named(self.structs[self.rng.below(self.structs.len())].name.clone()),
+            _ => arr(1 + self.rng.below(3), arr(1 + self.rng.below(3), Ty::Prim(self.int_type()))),
         }
     }
     fn cond(&mut self) -> Value {
         let t = self.int_type();
         let ops = ["==", "!=", "<", ">", "<=", ">="];
         let op = ops[self.rng.below(6)];
+        self.in_cond = true;
         let l = self.expr(t, 2);
         let r = self.expr(t, 1);
+        self.in_cond = false;
         json!({"op": op, "l": l, "r": r})
     }
-    fn declare(&mut self, out: &mut Vec<Value>) {
-        if self.rng.chance(20) {
-            let t = self.int_type();
-            let n = 1 + self.rng.below(4);
-            let name = self.fresh("r");
-            let es: Vec<Value> = (0..n).map(|_| self.expr(t, 1)).collect();
-            out.push(json!({"k": "V", "x": name, "t": format!("[{n}]{t}"), "e": {"k": "arr", "es": es}}));
-            self.scopes.last_mut().unwrap().push((name, t.to_string(), n));
-        } else {
-            let t = self.int_type();
-            let name = self.fresh("v");
-            let e = self.expr(t, 3);
-            out.push(json!({"k": "V", "x": name, "t": t, "e": e}));
-            self.scopes.last_mut().unwrap().push((name, t.to_string(), 0));
+
+    // ---- statements ----
+    fn storable_type(&mut self) -> Ty {
+        match self.rng.below(12) {
+            0..=4 => Ty::Prim(self.scalar_type()),
+            5 | 6 => arr(1 + self.rng.below(4), Ty::Prim(self.int_type())),
+            7 => arr(1 + self.rng.below(2), arr(1 + self.rng.below(3), Ty::Prim(self.int_type()))),
+            8 | 9 if !self.structs.is_empty() => {
+                let d = &self.structs[self.rng.below(self.structs.len())];
+                Ty::Named(d.name.clone())
+            }
+            10 => {
+                let words: Vec<String> = self.structs.iter().filter(|d| d.bits.is_some()).map(|d| d.name.clone()).collect();
+                if words.is_empty() { Ty::Prim(self.int_type()) } else { arr(1 + self.rng.below(3), Ty::Named(words[self.rng.below(words.len())].clone())) }
+            }
+            _ => Ty::Prim(self.int_type()),
         }
+    }
+    /// can an initialiser be produced here (pointer members need something to point to)?
+    fn initialisable(&mut self, t: &Ty) -> bool {
+        match t {
+            Ty::Ptr(_) => !self.address_candidates(t, 0).is_empty(),
+            Ty::Arr(_, e) => self.initialisable(e),
+            Ty::Named(n) => {
+                let ms = self.decl(n).ms.clone();
+                ms.iter().all(|(_, t)| self.initialisable(t))
+            }
+            _ => true,
+        }
+    }
+    fn declare_stmt(&mut self, out: &mut Vec<Value>) {
+        match self.rng.below(10) {
+            0 | 1 => {
+                // a pointer to something visible (a pointer to a pointer now and then), or an array of pointers
+                let targets: Vec<PlaceRef> = self
+                    .places()
+                    .into_iter()
+                    .filter(|p| p.writable && matches!(p.base().0, Ty::Prim(_) | Ty::Named(_) | Ty::Arr(..)) && p.base().1 <= 1)
+                    .collect();
+                if targets.is_empty() {
+                    return self.declare_plain(out);
+                }
+                let p = targets[self.rng.below(targets.len())].clone();
+                let (b, k) = p.base();
+                let b = b.clone();
+                if matches!(b, Ty::Prim(_)) && k == 0 && self.rng.chance(20) {
+                    // array of pointers
+                    let t = ptr(b.clone());
+                    let c = self.address_candidates(&t, 0);
+                    let n = 1 + self.rng.below(3);
+                    let es: Vec<Value> = (0..n).map(|_| c[self.rng.below(c.len())].clone()).collect();
+                    let name = self.fresh("q");
+                    out.push(json!({"k": "V", "x": name, "ty": ty_json(&arr(n, t.clone())), "e": {"k": "arr", "es": es}}));
+                    self.declare(&name, arr(n, t), false);
+                    return;
+                }
+                // &^(k+1) place: the address of the place; &^k place: a copy of the pointer it holds
+                let j = if k == 1 && self.rng.chance(50) { 1 } else { k + 1 };
+                let mut t = b.clone();
+                for _ in 0..j {
+                    t = ptr(t);
+                }
+                let name = self.fresh("r");
+                out.push(json!({"k": "V", "x": name, "ty": ty_json(&t), "e": p.reference(j)}));
+                self.declare(&name, t, false);
+            }
+            2 => {
+                // declared without a value, then filled element by element (tests/samples/valid/multidimensional_array.pn)
+                let t = Ty::Prim(self.int_type());
+                let (n1, n2) = (1 + self.rng.below(2), 1 + self.rng.below(3));
+                let two = self.rng.chance(50);
+                let ty = if two { arr(n1, arr(n2, t.clone())) } else { arr(n2, t.clone()) };
+                let name = self.fresh("un");
+                out.push(json!({"k": "V", "x": name, "ty": ty_json(&ty)}));
+                let p = if let Ty::Prim(p) = t { p } else { unreachable!() };
+                for i in 0..(if two { n1 } else { 1 }) {
+                    for j in 0..n2 {
+                        let mut steps = Vec::new();
+                        if two {
+                            steps.push(json!({"k": "i", "e": usize_lit(i)}));
+                        }
+                        steps.push(json!({"k": "i", "e": usize_lit(j)}));
+                        let e = self.expr(p, 1);
+                        out.push(json!({"k": "A", "r": {"x": name, "addr": 0, "steps": steps}, "e": e}));
+                    }
+                }
+                self.declare(&name, ty, false);
+            }
+            _ => self.declare_plain(out),
+        }
+    }
+    fn declare_plain(&mut self, out: &mut Vec<Value>) {
+        let mut t = self.storable_type();
+        if !self.initialisable(&t) {
+            t = Ty::Prim(self.int_type());
+        }
+        let prefix = match &t {
+            Ty::Prim(_) => "v",
+            Ty::Arr(..) => "a",
+            _ => "s",
+        };
+        let name = self.fresh(prefix);
+        self.calls_left = 1;
+        let e = if self.is_copyable(&t) && self.rng.chance(12) { self.effect_call(&t) } else { None };
+        let e = match e {
+            Some(e) => e,
+            None => self.value_of(&t, 2),
+        };
+        out.push(json!({"k": "V", "x": name, "ty": ty_json(&t), "e": e}));
+        self.declare(&name, t, false);
+    }
+    /// a call with `&` arguments as the whole right hand side
+    fn effect_call(&mut self, ret: &Ty) -> Option<Value> {
+        let cands: Vec<FnSig> = self.fns.iter().filter(|f| f.ret.as_ref() == Some(ret) && f.params.iter().any(|p| matches!(p.1, Ty::Ptr(_)))).cloned().collect();
+        if cands.is_empty() {
+            return None;
+        }
+        let f = cands[self.rng.below(cands.len())].clone();
+        // the other arguments are plain (no calls): evaluation order cannot matter
+        self.calls_left = 0;
+        let args = self.args_for(&f, true)?;
+        Some(json!({"k": "call", "f": f.name, "args": args}))
+    }
+    fn assign_stmt(&mut self, out: &mut Vec<Value>) -> bool {
+        let places = self.places();
+        if self.rng.chance(18) {
+            // address assignment `&^d p = &^d q`: both sides have the same number of markers
+            let targets: Vec<PlaceRef> = places.iter().filter(|p| p.base().1 >= 1 && (p.writable || p.base().1 >= 2) && !matches!(p.base().0, Ty::View(_))).cloned().collect();
+            if !targets.is_empty() {
+                let p = targets[self.rng.below(targets.len())].clone();
+                let (b, k) = p.base();
+                // d = k re-points the place itself (it must be writable); d < k re-points what it points to
+                let lo = 1;
+                let hi = if p.writable { k } else { k - 1 };
+                if hi >= lo {
+                    let d = lo + self.rng.below(hi - lo + 1);
+                    // sources must not be younger than the pointer that will hold them
+                    let srcs: Vec<Value> = {
+                        let mut v = Vec::new();
+                        for q in self.places() {
+                            let (qb, qk) = q.base();
+                            if qb != b || matches!(qb, Ty::View(_)) {
+                                continue;
+                            }
+                            // the holder of the new address: the place itself, or older storage reached through it
+                            let target_depth = if d == k && !p.through_ptr { p.depth } else { 0 };
+                            // d <= qk copies a pointer held by q (what it points to is at least as old as q);
+                            // d = qk + 1 takes the address of q itself
+                            if q.depth <= target_depth && (d <= qk || (d == qk + 1 && q.writable)) {
+                                v.push(q.reference(d));
+                            }
+                        }
+                        v
+                    };
+                    if !srcs.is_empty() {
+                        let e = srcs[self.rng.below(srcs.len())].clone();
+                        out.push(json!({"k": "A", "r": {"x": p.x, "addr": d, "steps": p.steps}, "e": e}));
+                        return true;
+                    }
+                }
+            }
+        }
+        // assignment to a writable place of a copyable type
+        let targets: Vec<PlaceRef> = places.into_iter().filter(|p| (p.writable || p.base().1 > 0) && self.is_copyable(p.base().0)).collect();
+        if targets.is_empty() {
+            return false;
+        }
+        let p = targets[self.rng.below(targets.len())].clone();
+        let t = p.base().0.clone();
+        self.calls_left = 1;
+        let literal_steps = p.steps.iter().all(|s| s["k"] == "m" || s["e"]["k"] == "lit");
+        let e = if literal_steps && self.rng.chance(10) { self.effect_call(&t) } else { None };
+        let e = match e {
+            Some(e) => e,
+            None => self.value_of(&t, 3),
+        };
+        if p.steps.is_empty() && self.rng.chance(50) {
+            out.push(json!({"k": "S", "x": p.x, "e": e}));
+        } else {
+            out.push(json!({"k": "A", "r": p.plain(), "e": e}));
+        }
+        true
+    }
+    fn print_stmt(&mut self, out: &mut Vec<Value>) {
+        let t = self.scalar_type();
+        self.calls_left = 1;
+        let e = if self.rng.chance(8) { self.effect_call(&Ty::Prim(t)) } else { None };
+        let e = match e {
+            Some(e) => e,
+            None => self.expr(t, 3),
+        };
+        out.push(json!({"k": "P", "e": e}));
+    }
+    fn call_stmt(&mut self, out: &mut Vec<Value>) -> bool {
+        if self.fns.is_empty() {
+            return false;
+        }
+        let f = self.fns[self.rng.below(self.fns.len())].clone();
+        self.calls_left = 0;
+        let args = match self.args_for(&f, true) {
+            Some(a) => a,
+            None => return false,
+        };
+        let mut d = String::new();
+        if let Some(rt) = &f.ret {
+            // the result may be stored in a plain variable
+            let dests: Vec<Variable> = self.scopes.iter().flatten().filter(|v| !v.hidden && v.kind == Kind::Var && &v.ty == rt).cloned().collect();
+            if dests.is_empty() {
+                // a function with a result is called for its effects through a declaration
+                let name = self.fresh("v");
+                out.push(json!({"k": "V", "x": name, "ty": ty_json(rt), "e": {"k": "call", "f": f.name, "args": args}}));
+                self.declare(&name, rt.clone(), false);
+                return true;
+            }
+            d = dests[self.rng.below(dests.len())].name.clone();
+        }
+        out.push(json!({"k": "CALL", "f": f.name, "args": args, "d": d}));
+        true
+    }
+    /// `{ if i == |x| goto end; <use x[i]>; i = i + 1; loop; } end:` over an array however it is reachable
+    fn foreach_stmt(&mut self, out: &mut Vec<Value>) -> bool {
+        let arrs: Vec<PlaceRef> = self
+            .places()
+            .into_iter()
+            .filter(|p| match p.base().0 {
+                Ty::Arr(_, e) | Ty::View(e) => !p.no_index() && matches!(**e, Ty::Prim(t) if t != "bool"),
+                _ => false,
+            })
+            .collect();
+        if arrs.is_empty() {
+            return false;
+        }
+        let p = arrs[self.rng.below(arrs.len())].clone();
+        let (elem, is_view) = match p.base().0 {
+            Ty::Arr(_, e) => ((**e).clone(), false),
+            Ty::View(e) => ((**e).clone(), true),
+            _ => unreachable!(),
+        };
+        let et = if let Ty::Prim(t) = elem { t } else { unreachable!() };
+        let writable = if is_view { p.base().1 > 0 } else { p.writable || p.base().1 > 0 };
+        let i = self.fresh("ix");
+        let lbl = self.fresh("done");
+        out.push(json!({"k": "V", "x": i, "ty": ty_json(&Ty::Prim("usize")), "e": usize_lit(0)}));
+        self.declare(&i, Ty::Prim("usize"), true);
+        out.push(json!({"k": "O"}));
+        out.push(json!({"k": "IG", "c": {"op": "==", "l": var(&i), "r": {"k": "len", "r": p.plain()}}, "n": lbl}));
+        let mut steps = p.steps.clone();
+        steps.push(json!({"k": "i", "e": var(&i)}));
+        let elem_ref = json!({"k": "ref", "x": p.x, "addr": 0, "steps": steps});
+        if writable && self.rng.chance(50) {
+            let e = self.expr(et, 1);
+            let rhs = if self.rng.chance(50) { json!({"k": "bin", "op": "+", "l": elem_ref.clone(), "r": e}) } else { e };
+            out.push(json!({"k": "A", "r": {"x": p.x, "addr": 0, "steps": steps}, "e": rhs}));
+        }
+        out.push(json!({"k": "P", "e": elem_ref}));
+        out.push(json!({"k": "S", "x": i, "e": {"k": "bin", "op": "+", "l": var(&i), "r": usize_lit(1)}}));
+        out.push(json!({"k": "LP"}));
+        out.push(json!({"k": "C"}));
+        out.push(json!({"k": "L", "n": lbl}));
+        true
     }
     fn statements(&mut self, out: &mut Vec<Value>, depth: usize, exit_label: Option<&str>) {
         let n = 1 + self.rng.below(5);
@@ -183,36 +943,23 @@ impl Gen {
                 break;
             }
             self.budget -= 1;
-            match self.rng.below(14) {
-                0 | 1 | 2 => self.declare(out),
-                3 | 4 => {
-                    // assignment to a visible scalar variable or array element
-                    let scalars: Vec<(String, String)> = self.scopes.iter().flatten().filter(|x| x.2 == 0 && !x.0.starts_with('p')).map(|x| (x.0.clone(), x.1.clone())).collect();
-                    let arrs: Vec<(String, String, usize)> = self.scopes.iter().flatten().filter(|x| x.2 > 0).cloned().collect();
-                    if !arrs.is_empty() && self.rng.chance(30) {
-                        let (a, t, len) = arrs[self.rng.below(arrs.len())].clone();
-                        let e = self.expr(&t, 2);
-                        out.push(json!({"k": "SI", "x": a, "i": lit("usize", self.rng.below(len) as u128), "e": e}));
-                    } else if !scalars.is_empty() {
-                        let (x, t) = scalars[self.rng.below(scalars.len())].clone();
-                        let e = self.expr(&t, 3);
-                        out.push(json!({"k": "S", "x": x, "e": e}));
-                    } else {
-                        self.declare(out);
+            self.calls_left = 1;
+            match self.rng.below(20) {
+                0 | 1 | 2 | 3 => self.declare_stmt(out),
+                4 | 5 | 6 => {
+                    if !self.assign_stmt(out) {
+                        self.declare_stmt(out);
                     }
                 }
-                5 | 6 | 7 => {
-                    let t = self.int_type();
-                    let e = self.expr(t, 3);
-                    out.push(json!({"k": "P", "e": e}));
-                }
-                8 | 9 if depth < 3 => {
+                7 | 8 | 9 => self.print_stmt(out),
+                10 | 11 if depth < 3 => {
                     // if / else-if / else chain with braced blocks
                     let c = self.cond();
                     out.push(json!({"k": "IO", "c": c}));
                     self.block_body(out, depth + 1, exit_label);
                     out.push(json!({"k": "C"}));
                     while self.rng.chance(30) {
+                        self.calls_left = 1;
                         let c = self.cond();
                         out.push(json!({"k": "EIO", "c": c}));
                         self.block_body(out, depth + 1, exit_label);
@@ -224,24 +971,31 @@ impl Gen {
                         out.push(json!({"k": "C"}));
                     }
                 }
-                10 if exit_label.is_some() => {
-                    // conditional jump out of the enclosing construct
-                    let c = self.cond();
-                    out.push(json!({"k": "IG", "c": c, "n": exit_label.unwrap()}));
-                    if self.rng.chance(25) {
-                        out.push(json!({"k": "EG", "n": exit_label.unwrap()}));
-                        break;
+                12 => {
+                    // conditional jump out of the enclosing construct, or to the end of the function
+                    let target = match exit_label {
+                        Some(l) => Some(l.to_string()),
+                        None if self.has_return_label => Some("return".to_string()),
+                        None => None,
+                    };
+                    if let Some(l) = target {
+                        let c = self.cond();
+                        out.push(json!({"k": "IG", "c": c, "n": l}));
+                        if self.rng.chance(25) {
+                            out.push(json!({"k": "EG", "n": l}));
+                            break;
+                        }
                     }
                 }
-                11 if depth < 3 => {
+                13 if depth < 3 => {
                     // counted loop: var i; { body; if i >= k goto out; i = i + 1; loop; } out:
                     let i = self.fresh("cnt");
                     let k = 1 + self.rng.below(4) as u128;
                     let lbl = self.fresh("out");
-                    out.push(json!({"k": "V", "x": i, "t": "u8", "e": lit("u8", 0)}));
-                    self.scopes.last_mut().unwrap().push((format!("p{i}"), "none".to_string(), 0));
+                    out.push(json!({"k": "V", "x": i, "ty": ty_json(&Ty::Prim("u8")), "e": lit("u8", 0)}));
+                    self.declare(&i, Ty::Prim("u8"), true);
                     out.push(json!({"k": "O"}));
-                    self.scopes.push(vec![(format!("p_{i}"), "none".to_string(), 0)]);
+                    self.scopes.push(Vec::new());
                     if self.rng.chance(50) {
                         out.push(json!({"k": "P", "e": var(&i)}));
                     }
@@ -253,7 +1007,7 @@ impl Gen {
                     out.push(json!({"k": "C"}));
                     out.push(json!({"k": "L", "n": lbl}));
                 }
-                12 if depth < 3 => {
+                14 if depth < 3 => {
                     // plain block with a label at its end
                     let lbl = self.fresh("end");
                     out.push(json!({"k": "O"}));
@@ -263,20 +1017,17 @@ impl Gen {
                     out.push(json!({"k": "L", "n": lbl}));
                     out.push(json!({"k": "C"}));
                 }
-                13 if !self.fns.is_empty() => {
-                    let (f, pts, rt) = self.fns[self.rng.below(self.fns.len())].clone();
-                    let dests = self.vars_of(&rt);
-                    let dests: Vec<String> = dests.into_iter().filter(|d| !self.consts.iter().any(|c| &c.0 == d) && !d.starts_with('p')).collect();
-                    if !dests.is_empty() {
-                        let args: Vec<Value> = pts.iter().map(|t| self.expr(t, 2)).collect();
-                        out.push(json!({"k": "CALL", "f": f, "args": args, "d": dests[self.rng.below(dests.len())]}));
+                15 | 16 | 17 => {
+                    if !self.call_stmt(out) {
+                        self.print_stmt(out);
                     }
                 }
-                _ => {
-                    let t = self.int_type();
-                    let e = self.expr(t, 2);
-                    out.push(json!({"k": "P", "e": e}));
+                18 if depth < 3 => {
+                    if !self.foreach_stmt(out) {
+                        self.print_stmt(out);
+                    }
                 }
+                _ => self.print_stmt(out),
             }
         }
     }
@@ -285,50 +1036,153 @@ impl Gen {
         self.statements(out, depth, exit_label);
         self.scopes.pop();
     }
+
+    // ---- functions ----
+    fn param_type(&mut self) -> (Ty, usize) {
+        let structs: Vec<String> = self.structs.iter().filter(|d| d.bits.is_none() && !d.has_ptr).map(|d| d.name.clone()).collect();
+        let words: Vec<String> = self.structs.iter().filter(|d| d.bits.is_some()).map(|d| d.name.clone()).collect();
+        let minlen = 1 + self.rng.below(3);
+        let it = Ty::Prim(self.int_type());
+        match self.rng.below(14) {
+            0 | 1 => (Ty::Prim(self.scalar_type()), 0),
+            2 if !words.is_empty() => (Ty::Named(words[self.rng.below(words.len())].clone()), 0),
+            3 | 4 => (view(it), minlen),
+            5 => (view(arr(1 + self.rng.below(3), it)), minlen.min(2)),
+            6 if !structs.is_empty() => (Ty::Named(structs[self.rng.below(structs.len())].clone()), 0),
+            7 | 8 => (ptr(view(it)), minlen),
+            9 => (ptr(it), 0),
+            10 if !self.structs.is_empty() => {
+                let cands: Vec<String> = self.structs.iter().filter(|d| !d.has_ptr).map(|d| d.name.clone()).collect();
+                if cands.is_empty() { (ptr(it), 0) } else { (ptr(Ty::Named(cands[self.rng.below(cands.len())].clone())), 0) }
+            }
+            11 => (ptr(ptr(it)), 0),
+            12 => (ptr(arr(1 + self.rng.below(3), it)), 0),
+            _ => (ptr(it), 0),
+        }
+    }
+    fn function(&mut self) -> Value {
+        let name = self.fresh("h");
+        let np = self.rng.below(4);
+        let mut params = Vec::new();
+        let mut sig = Vec::new();
+        self.scopes = vec![Vec::new()];
+        for _ in 0..np {
+            let (t, minlen) = self.param_type();
+            let p = self.fresh("p");
+            params.push(json!({"x": p, "ty": ty_json(&t)}));
+            // element access through a `&[N]T` parameter gives invalid IR (finding): such parameters are only measured and passed on
+            let hidden = false;
+            self.scopes[0].push(Variable { name: p.clone(), ty: t.clone(), kind: Kind::Param, minlen, depth: 0, hidden });
+            sig.push((p, t, minlen));
+        }
+        let words: Vec<String> = self.structs.iter().filter(|d| d.bits.is_some()).map(|d| d.name.clone()).collect();
+        let ret: Option<Ty> = match self.rng.below(10) {
+            0 | 1 => None,
+            2 if !words.is_empty() => Some(Ty::Named(words[self.rng.below(words.len())].clone())),
+            _ => Some(Ty::Prim(self.scalar_type())),
+        };
+        let mut body = Vec::new();
+        self.budget = 3 + self.rng.below(7);
+        self.has_return_label = ret.is_some() && self.rng.chance(40);
+        self.scopes.push(Vec::new());
+        // with a `return` label the result is a variable declared first: a `goto return` must not skip the
+        // declaration of anything the result uses (E482)
+        let mut result_var = None;
+        if self.has_return_label {
+            let rt = ret.clone().unwrap();
+            let rv = self.fresh("res");
+            self.calls_left = 0;
+            let e = self.value_of(&rt, 1);
+            body.push(json!({"k": "V", "x": rv, "ty": ty_json(&rt), "e": e}));
+            self.declare(&rv, rt, false);
+            result_var = Some(rv);
+        }
+        self.statements(&mut body, 1, None);
+        let mut f = json!({"name": name, "params": params, "ret": match &ret { Some(t) => ty_json(t), None => json!({"k": "void"}) }});
+        if let Some(rt) = &ret {
+            match &result_var {
+                Some(rv) => {
+                    body.push(json!({"k": "L", "n": "return"}));
+                    f["res"] = var(rv);
+                }
+                None => {
+                    self.calls_left = 1;
+                    f["res"] = self.value_of(rt, 2);
+                }
+            }
+        }
+        self.scopes.pop();
+        f["body"] = json!(body);
+        self.has_return_label = false;
+        self.fns.push(FnSig { name, params: sig, ret });
+        f
+    }
 }
 
 pub fn program(seed: u64, i: u64) -> Value {
-    let mut g = Gen { rng: Rng::new(seed, i), scopes: vec![Vec::new()], counter: 0, fns: Vec::new(), consts: Vec::new(), budget: 0 };
-    // constants
+    let mut g = Gen {
+        rng: Rng::new(seed, i),
+        structs: Vec::new(),
+        scopes: vec![Vec::new()],
+        consts: Vec::new(),
+        counter: 0,
+        fns: Vec::new(),
+        budget: 0,
+        calls_left: 0,
+        has_return_label: false,
+        in_const: false,
+        in_cond: false,
+    };
+    g.gen_structs();
+    // constants: scalars, arrays, structures and words (no pointers: E360)
     let mut consts = Vec::new();
-    for _ in 0..g.rng.below(3) {
-        let t = g.int_type();
-        let name = g.fresh("K");
-        let e = g.expr(t, 2);
-        consts.push(json!({"x": name, "t": t, "e": e}));
-        g.consts.push((name, t.to_string()));
-    }
-    // helper functions with value parameters
-    let mut fns = Vec::new();
-    for _ in 0..g.rng.below(3) {
-        let name = g.fresh("h");
-        let np = g.rng.below(3);
-        let mut params = Vec::new();
-        let mut pts = Vec::new();
-        g.scopes = vec![Vec::new()];
-        for _ in 0..np {
-            let t = g.int_type();
-            let p = g.fresh("p");
-            params.push(json!({"x": p, "t": t}));
-            pts.push(t.to_string());
-            g.scopes[0].push((p, t.to_string(), 0));
+    for _ in 0..g.rng.below(4) {
+        let mut t = g.storable_type();
+        let has_ptr = |g: &Gen, t: &Ty| -> bool {
+            fn rec(g: &Gen, t: &Ty) -> bool {
+                match t {
+                    Ty::Ptr(_) => true,
+                    Ty::Arr(_, e) => rec(g, e),
+                    Ty::Named(n) => g.decl(n).ms.iter().any(|(_, t)| rec(g, t)),
+                    _ => false,
+                }
+            }
+            rec(g, t)
+        };
+        if has_ptr(&g, &t) {
+            t = Ty::Prim(g.int_type());
         }
-        let rt = g.int_type();
-        let mut body = Vec::new();
-        g.budget = 4 + g.rng.below(6);
-        g.scopes.push(Vec::new());
-        g.statements(&mut body, 1, None);
-        let res = g.expr(rt, 3);
-        g.scopes.pop();
-        fns.push(json!({"name": name, "params": params, "ret": rt, "body": body, "res": res}));
-        g.fns.push((name, pts, rt.to_string()));
+        let name = g.fresh("K");
+        g.calls_left = 0;
+        g.in_const = true;
+        let e = g.value_of(&t, 2);
+        g.in_const = false;
+        consts.push(json!({"x": name, "ty": ty_json(&t), "e": e}));
+        g.consts.push(Variable { name, ty: t, kind: Kind::Const, minlen: 0, depth: 0, hidden: false });
+    }
+    let mut fns = Vec::new();
+    for _ in 0..g.rng.below(4) {
+        let f = g.function();
+        fns.push(f);
     }
     g.scopes = vec![Vec::new()];
     let mut body = Vec::new();
-    g.budget = 6 + g.rng.below(25);
+    g.budget = 6 + g.rng.below(22);
     g.statements(&mut body, 0, None);
+    g.calls_left = 1;
     let res = g.expr("u8", 2);
-    let mut all = vec![json!({"name": "main", "params": [], "ret": "u8", "body": body, "res": res})];
+    let mut all = vec![json!({"name": "main", "params": [], "ret": {"k": "prim", "t": "u8"}, "body": body, "res": res})];
     all.extend(fns);
-    json!({"consts": consts, "fns": all})
+    let structs: Vec<Value> = g
+        .structs
+        .iter()
+        .map(|d| {
+            let ms: Vec<Value> = d.ms.iter().map(|(m, t)| json!({"x": m, "ty": ty_json(t)})).collect();
+            match d.bits {
+                Some(b) => json!({"name": d.name, "kind": "word", "bits": b, "ms": ms}),
+                None => json!({"name": d.name, "kind": "struct", "ms": ms}),
+            }
+        })
+        .collect();
+    json!({"structs": structs, "consts": consts, "fns": all})
 }
